@@ -41,7 +41,7 @@ def install_budget(job, r, budget):
 
 
 def run_script(text, decisions=None, keep_job=False, job=None, budget=100000,
-               monitor=False, mon=None):
+               monitor=False, mon=None, stop_at=None):
     """Compile `text` in a fresh ScriptJob (or re-run `job`) and execute it."""
     env.reset_monitors()
     if decisions is not None:
@@ -77,13 +77,15 @@ def run_script(text, decisions=None, keep_job=False, job=None, budget=100000,
             r.mon.calls, r.mon.loops, r.mon.steps = [], 0, 0
             r.mon.exhausted = False
             r.mon.run_jumps = set()
+            r.mon.stop_at, r.mon.stopped_at = stop_at, None
             before = vmmon.fingerprint(job.program)
         vmmon.LAST_LOAD.clear()
         job.execute()
         r.image_faults = list(vmmon.LAST_LOAD.get('faults') or [])
         if r.mon is not None:
             r.budget_exhausted = r.mon.exhausted
-            r.mon.finish(stopped=bool(env.MACHINE_STOPS))
+            r.mon.finish(stopped=bool(env.MACHINE_STOPS)
+                         or r.mon.stopped_at is not None)
             r.fp_changed = before != vmmon.fingerprint(job.program)
     r.log = list(simnet.LOG)
     r.stops = list(env.MACHINE_STOPS)
